@@ -3,6 +3,7 @@ package props
 // C12 — plasma and proof-of-work: no block is accepted without paying its cost.
 
 import (
+	"bytes"
 	"encoding/binary"
 	"fmt"
 	"math/big"
@@ -13,6 +14,7 @@ import (
 	"github.com/zenon-network/go-zenon/chain/nom"
 	"github.com/zenon-network/go-zenon/common/types"
 	"github.com/zenon-network/go-zenon/pow"
+	"github.com/zenon-network/go-zenon/vm/embedded/definition"
 
 	"verifharness/pbt"
 	"verifharness/sim"
@@ -145,6 +147,14 @@ func refPowPlasma(d uint64) uint64 {
 }
 
 // checkPlasmaOfBlock applies the statement to one accepted user block on node n.
+// refMethodPlasma: base cost of calls that cost more than the simple embedded cost (2.5 x 21000).
+var refMethodPlasma = map[string]uint64{
+	"accelerator.Update": 73500, "bridge.Redeem": 73500, "htlc.Reclaim": 73500, "htlc.Unlock": 73500, "liquidity.CancelLiquidityStake": 73500,
+	"liquidity.CollectReward": 94500, "pillar.Register": 105000, "pillar.RegisterLegacy": 105000, "pillar.Revoke": 73500, "pillar.WithdrawQsr": 73500,
+	"plasma.CancelFuse": 73500, "sentinel.Revoke": 94500, "sentinel.WithdrawQsr": 73500, "stake.Cancel": 73500, "swap.RetrieveAssets": 94500,
+	"token.IssueToken": 73500, "token.Mint": 73500,
+}
+
 func checkPlasmaOfBlock(c *pbt.C, n *sim.Node, b *nom.AccountBlock, chainOf []*nom.AccountBlock) {
 	if types.IsEmbeddedAddress(b.Address) || b.BlockType == nom.BlockTypeGenesisReceive {
 		return
@@ -165,6 +175,15 @@ func checkPlasmaOfBlock(c *pbt.C, n *sim.Node, b *nom.AccountBlock, chainOf []*n
 		base = refTxPlasma
 	case types.IsEmbeddedAddress(b.ToAddress):
 		base = refEmbeddedMin
+		// the cost of the called method (transcribed once from the method definitions of the pinned tree: the simple
+		// cost unless listed)
+		if ab, ok := sim.Contracts[b.ToAddress]; ok && len(b.Data) >= 4 {
+			if m, err := ab.MethodById(b.Data[:4]); err == nil {
+				if v, listed := refMethodPlasma[sim.ContractNames[b.ToAddress]+"."+m.Name]; listed {
+					base = v
+				}
+			}
+		}
 	default:
 		base = refTxPlasma + refBytePlasma*uint64(len(b.Data))
 	}
@@ -215,7 +234,13 @@ func TestC12Plasma(t *testing.T) {
 		custPlasma := func() {
 			from := h.Users[c.Pick("cp.from", len(h.Users))]
 			tpl := &nom.AccountBlock{Address: from, BlockType: nom.BlockTypeUserSend}
-			switch c.Weighted("cp.kind", 3, 1, 2) {
+			switch c.Weighted("cp.kind", 3, 1, 2, 2) {
+			case 3:
+				// a call whose method costs more than the simple embedded cost
+				tpl.ToAddress = types.PlasmaContract
+				tpl.TokenStandard = types.ZnnTokenStandard
+				tpl.Amount = big.NewInt(0)
+				tpl.Data = definition.ABIPlasma.PackMethodPanic(definition.CancelFuseMethodName, types.NewHash(c.Bytes("cp.cancelId", 1, 2)))
 			case 0:
 				tpl.ToAddress = h.Users[c.Pick("cp.to", len(h.Users))]
 				tpl.TokenStandard = types.ZnnTokenStandard
@@ -243,6 +268,9 @@ func TestC12Plasma(t *testing.T) {
 			base := uint64(refTxPlasma + refBytePlasma*len(tpl.Data))
 			if tpl.BlockType == nom.BlockTypeUserSend && types.IsEmbeddedAddress(tpl.ToAddress) {
 				base = refEmbeddedMin
+				if len(tpl.Data) >= 4 && bytes.Equal(tpl.Data[:4], definition.ABIPlasma.Methods[definition.CancelFuseMethodName].Id()) {
+					base = refMethodPlasma["plasma.CancelFuse"]
+				}
 			}
 			st := h.A.Chain.GetFrontierAccountStore(from)
 			prev := st.Identifier()
